@@ -1,5 +1,6 @@
 (* Run.v — the operations of the correspondence check: one [run_case] entry point. *)
 From DltV.Model Require Import Bytes RustInt Utf8 Nom Dlt Parse Wire.
+From DltV.Spec Require Import WellFormed.
 Open Scope N_scope.
 
 Definition w_cres (x : option (list argument)) : list wtok :=
@@ -26,6 +27,139 @@ Definition op_new (ts : list wtok) : list wtok :=
        let m := match t with Some t => add_storage_header m t | None => m end in
        w_msg m).
 
+
+(* ---- compound operations ---- *)
+Definition has_storage (m : message) : bool := match m_storage m with Some _ => true | None => false end.
+
+(* 20 RT: serialise, append a suffix, parse *)
+Definition op_rt (ts : list wtok) : list wtok :=
+  run_rd (rlet m := r_msg in rlet suffix := r_bytes in rret (m, suffix)) ts (fun '(m, suffix) =>
+    w_bool (wf_message m) ++
+    if message_bytes_overflows m then [WN 1]
+    else WN 0 :: WB (message_bytes m) ::
+         w_pres w_parsed (dlt_message (message_bytes m ++ suffix) None (has_storage m))).
+
+(* 21 PARSE_USE: parse hostile bytes and use the result (C03) *)
+Definition args_of (m : message) : list argument :=
+  match m_payload m with PVerbose args => args | _ => [] end.
+Definition op_parse_use (ts : list wtok) : list wtok :=
+  run_rd (rlet sh := r_bool in rlet f := r_opt r_filter in rlet bs := r_bytes in rret (sh, f, bs)) ts
+    (fun '(sh, f, bs) =>
+       match dlt_message bs (option_map process_filter f) sh with
+       | POk (Item m) _ =>
+         [WN 0; WN (if message_bytes_overflows m then 1 else 0);
+          WN (if forallb arg_valid (args_of m) then 1 else 0)]
+       | POk (FilteredOut _) _ => [WN 1]
+       | POk Invalid _ => [WN 2]
+       | PIncomplete _ => [WN 3]
+       | PError => [WN 4]
+       | PFailure => [WN 5]
+       | PPanic => [WN 9]
+       end).
+
+(* 23 PREFIX: verdict on every proper prefix of a message's bytes (C05) *)
+Definition prefix_code {A} (x : pres A) : N :=
+  match x with
+  | PIncomplete None => 0
+  | PIncomplete (Some n) => n
+  | POk _ _ => 16777216
+  | PError => 16777217
+  | PFailure => 16777218
+  | PPanic => 16777219
+  end.
+Definition op_prefix (ts : list wtok) : list wtok :=
+  run_rd (rlet m := r_msg in rlet f := r_opt r_filter in rret (m, f)) ts (fun '(m, f) =>
+    w_bool (wf_message m) ++
+    if message_bytes_overflows m then [WN 1]
+    else
+      let bs := message_bytes m in
+      let pf := option_map process_filter f in
+      WN 0 :: WN (len bs) ::
+      map (fun k => WN (prefix_code (dlt_message (firstn k bs) pf (has_storage m)))) (seq 0 (length bs))
+      ++ (if has_storage m
+          then map (fun k => WN (match dlt_consume_msg (firstn k bs) with
+                                 | POk None _ => 16777220
+                                 | x => prefix_code x end)) (seq 0 (length bs))
+          else [])).
+
+(* 24 JUNK: junk ++ message ++ rest versus message ++ rest, with storage headers (C06) *)
+Definition op_junk (ts : list wtok) : list wtok :=
+  run_rd (rlet j := r_bytes in rlet m := r_msg in rlet rest := r_bytes in rlet f := r_opt r_filter in rret (j, m, rest, f)) ts
+    (fun '(j, m, rest, f) =>
+       w_bool (wf_message m) ++
+       if message_bytes_overflows m then [WN 1]
+       else
+         let pf := option_map process_filter f in
+         WN 0 :: w_pres w_parsed (dlt_message (j ++ message_bytes m ++ rest) pf true)
+         ++ w_pres w_parsed (dlt_message (message_bytes m ++ rest) pf true)).
+
+(* 25 PARSEALL: repeated parsing of a buffer until the first non-Ok *)
+Definition op_parse_all (ts : list wtok) : list wtok :=
+  run_rd (rlet sh := r_bool in rlet f := r_opt r_filter in rlet bs := r_bytes in rret (sh, f, bs)) ts
+    (fun '(sh, f, bs) =>
+       let '(l, r) := parse_all (S (length bs)) bs (option_map process_filter f) sh in
+       w_list w_parsed l ++ [WN (len r)]).
+
+(* 26 FILT: serialise, append suffix, parse with a filter (C09) *)
+Definition op_filt (ts : list wtok) : list wtok :=
+  run_rd (rlet m := r_msg in rlet f := r_filter in rlet suffix := r_bytes in rret (m, f, suffix)) ts
+    (fun '(m, f, suffix) =>
+       w_bool (wf_message m) ++
+       if message_bytes_overflows m then [WN 1]
+       else WN 0 :: w_pres w_parsed (dlt_message (message_bytes m ++ suffix) (Some (process_filter f)) (has_storage m))).
+
+(* 28 STABLE: parse bytes; re-serialise a returned message; parse again (C16) *)
+Definition op_stable (ts : list wtok) : list wtok :=
+  run_rd (rlet sh := r_bool in rlet bs := r_bytes in rret (sh, bs)) ts (fun '(sh, bs) =>
+    match dlt_message bs None sh with
+    | POk (Item m) _ =>
+      if message_bytes_overflows m then [WN 1; WN 1]
+      else
+        let bs2 := message_bytes m in
+        let declared := (if sh then 16 else 0) + byte_len m in
+        WN 1 :: WN 0 :: w_msg m ++ [WB bs2; WN declared] ++
+        (if len bs2 =? declared then
+           match dlt_message bs2 None sh with
+           | POk (Item m2) rest2 =>
+             [WN 0] ++ w_msg m2 ++ [WN (len rest2)] ++
+             (if message_bytes_overflows m2 then [WN 1] else [WN 0; WB (message_bytes m2)])
+           | x => w_pres w_parsed x
+           end
+         else [WN 7])
+    | _ => [WN 0]
+    end).
+
+
+(* 27 FILTERCFG: the processed configuration, sets in canonical (sorted) order *)
+Fixpoint bytes_leb (a b : list byte) : bool :=
+  match a, b with
+  | [], _ => true
+  | _ :: _, [] => false
+  | x :: a', y :: b' => if b2n x <? b2n y then true else if b2n y <? b2n x then false else bytes_leb a' b'
+  end.
+Fixpoint insert_sorted (x : list byte) (l : list (list byte)) : list (list byte) :=
+  match l with
+  | [] => [x]
+  | y :: r => if bytes_leb x y then x :: l else y :: insert_sorted x r
+  end.
+Definition sort_bytes (l : list (list byte)) : list (list byte) := fold_right insert_sorted [] l.
+Definition w_processed (p : processed_filter) : list wtok :=
+  w_opt w_log_level (pf_min_log_level p)
+  ++ w_opt (fun s => w_list w_bytes (sort_bytes s)) (pf_app_ids p)
+  ++ w_opt (fun s => w_list w_bytes (sort_bytes s)) (pf_ecu_ids p)
+  ++ w_opt (fun s => w_list w_bytes (sort_bytes s)) (pf_context_ids p)
+  ++ [WZ (pf_app_id_count p); WZ (pf_context_id_count p)].
+
+(* 29 STREAMJ: junk0 ++ (message ++ junk)* parsed repeatedly with storage headers *)
+Definition r_msg_junk : rd (message * list byte) := rlet m := r_msg in rlet j := r_bytes in rret (m, j).
+Definition op_streamj (ts : list wtok) : list wtok :=
+  run_rd (rlet j0 := r_bytes in rlet l := r_list r_msg_junk in rret (j0, l)) ts (fun '(j0, l) =>
+    if existsb (fun mj => message_bytes_overflows (fst mj)) l then [WN 1]
+    else
+      let buf := j0 ++ flat_map (fun mj => message_bytes (fst mj) ++ snd mj) l in
+      let '(res, r) := parse_all (S (length buf)) buf None true in
+      WN 0 :: w_list w_parsed res ++ [WN (len r)]).
+
 Definition run_case (op : N) (ts : list wtok) : list wtok :=
   match op with
   | 1 => run_rd r_n ts (fun ms => w_chk w_ts (from_ms ms))
@@ -36,11 +170,6 @@ Definition run_case (op : N) (ts : list wtok) : list wtok :=
            match ti_decode w with
            | Some t => WN 1 :: w_ti t ++ [WN (ti_encode t); WB (ti_bytes LE t); WB (ti_bytes BE t)]
            | None => [WN 0]
-           end)
-  | 6 => run_rd r_bytes ts (fun bs =>
-           match dlt_standard_header bs with
-           | POk h rest => WN 0 :: w_std h ++ [WN (len rest); WN (header_type_byte h)]
-           | x => w_pres w_std x
            end)
   | 7 => run_rd r_n ts (fun b =>
            let t := message_type_decode b in
@@ -58,5 +187,14 @@ Definition run_case (op : N) (ts : list wtok) : list wtok :=
             (fun '(e, tys, d) => w_cres (construct_arguments e tys d))
   | 14 => op_arg ts
   | 15 => op_new ts
+  | 20 => op_rt ts
+  | 21 => op_parse_use ts
+  | 23 => op_prefix ts
+  | 24 => op_junk ts
+  | 25 => op_parse_all ts
+  | 26 => op_filt ts
+  | 27 => run_rd r_filter ts (fun f => w_processed (process_filter f))
+  | 28 => op_stable ts
+  | 29 => op_streamj ts
   | _ => [WN 998]
   end.
